@@ -95,7 +95,12 @@ def spare_case(case):
                             data = ("-1.5E+03" * w)[:w]
                         data = data.encode("ascii")
                     elif leaf["k"] in ("af", "ai"):
-                        data = (f"{rnd.uniform(-1e5, 1e5):.4f}" if leaf["k"] == "af" else str(rnd.randrange(10 ** min(w - 1, 8))))[:w].rjust(w).encode()
+                        # "any number": ordinary ones, and numbers far outside what a double holds (they read as inf / 0.0: still numbers)
+                        if leaf["k"] == "af":
+                            num = (f"{rnd.uniform(-1e5, 1e5):.4f}", "1.0E+999", "-2.5E+400", "1E309", "4.9E-999", "-0.0", "+7", "1e5")[rnd.randrange(8)]
+                        else:
+                            num = str(rnd.randrange(10 ** min(w - 1, 8)))
+                        data = num[:w].rjust(w).encode()
                     else:  # binary spare: any bytes
                         data = bytes(rnd.randrange(256) for _ in range(w))
                     buf[pos:pos + w] = data
